@@ -895,3 +895,83 @@ Proof.
   destruct (produce _) as [s|e]; [|reflexivity].
   simpl. rewrite H. reflexivity.
 Qed.
+
+(* ================================================================================================ *)
+(* 7. surrounding whitespace (line terminators) is irrelevant: produce looks at strip(raw) only       *)
+
+Lemma produce_depends_on_strip : forall a b, strip a = strip b -> produce a = produce b.
+Proof. intros a b H. unfold produce, pre_process. rewrite H. reflexivity. Qed.
+
+Lemma rstrip_idempotent : forall x, rstrip (rstrip x) = rstrip x.
+Proof.
+  induction x as [|c r IH]; [reflexivity|]. simpl.
+  destruct (rstrip r) as [|y r'] eqn:E.
+  - destruct (is_space c) eqn:Ec; [reflexivity|]. simpl. rewrite Ec. reflexivity.
+  - simpl. simpl in IH. rewrite IH. reflexivity.
+Qed.
+
+Lemma lstrip_head : forall b, lstrip b = [] \/ exists c r, lstrip b = c :: r /\ is_space c = false.
+Proof.
+  induction b as [|c r IH]; simpl; [left; reflexivity|].
+  destruct (is_space c) eqn:E; [exact IH|]. right. exists c, r. auto.
+Qed.
+
+Lemma lstrip_rstrip_nonspace_head : forall c r, is_space c = false -> lstrip (rstrip (c :: r)) = rstrip (c :: r).
+Proof.
+  intros c r H. simpl rstrip. destruct (rstrip r); [rewrite H|]; simpl; rewrite H; reflexivity.
+Qed.
+
+Lemma strip_idempotent : forall b, strip (strip b) = strip b.
+Proof.
+  intros b. unfold strip.
+  destruct (lstrip_head b) as [E | [c [r [E Hc]]]]; rewrite E.
+  - reflexivity.
+  - rewrite (lstrip_rstrip_nonspace_head c r Hc). apply rstrip_idempotent.
+Qed.
+
+Theorem produce_strip : forall raw, produce (strip raw) = produce raw.
+Proof. intros. apply produce_depends_on_strip, strip_idempotent. Qed.
+
+Lemma rstrip_all_spaces : forall ws, forallb is_space ws = true -> rstrip ws = [].
+Proof.
+  induction ws as [|c r IH]; intros H; [reflexivity|]. simpl in *.
+  apply andb_true_iff in H as [Hc Hr]. rewrite (IH Hr), Hc. reflexivity.
+Qed.
+
+Lemma rstrip_app_spaces : forall l ws, forallb is_space ws = true -> rstrip (l ++ ws) = rstrip l.
+Proof.
+  induction l as [|c r IH]; intros ws H; simpl.
+  - apply rstrip_all_spaces; exact H.
+  - rewrite (IH ws H). reflexivity.
+Qed.
+
+Lemma lstrip_all_spaces : forall ws, forallb is_space ws = true -> lstrip ws = [].
+Proof.
+  induction ws as [|c r IH]; intros H; [reflexivity|]. simpl in *.
+  apply andb_true_iff in H as [Hc Hr]. rewrite Hc. exact (IH Hr).
+Qed.
+
+Lemma lstrip_spaces_app : forall ws l, forallb is_space ws = true -> lstrip (ws ++ l) = lstrip l.
+Proof.
+  induction ws as [|c r IH]; intros l H; [reflexivity|]. simpl in *.
+  apply andb_true_iff in H as [Hc Hr]. rewrite Hc. exact (IH l Hr).
+Qed.
+
+Lemma lstrip_app_spaces : forall l ws, forallb is_space ws = true ->
+  lstrip (l ++ ws) = match lstrip l with [] => [] | x => x ++ ws end.
+Proof.
+  induction l as [|c r IH]; intros ws H; simpl.
+  - apply lstrip_all_spaces; exact H.
+  - destruct (is_space c); [exact (IH ws H) | reflexivity].
+Qed.
+
+(* blanks, CR, LF, TAB ... before and after a line do not change what it parses to *)
+Theorem produce_surrounding_whitespace : forall ws1 raw ws2,
+  forallb is_space ws1 = true -> forallb is_space ws2 = true ->
+  produce (ws1 ++ raw ++ ws2) = produce raw.
+Proof.
+  intros ws1 raw ws2 H1 H2. apply produce_depends_on_strip. unfold strip.
+  rewrite (lstrip_spaces_app ws1 _ H1), (lstrip_app_spaces raw ws2 H2).
+  destruct (lstrip raw) as [|x l] eqn:E; [reflexivity|].
+  apply rstrip_app_spaces; exact H2.
+Qed.
